@@ -28,6 +28,10 @@ GEN_SPEC = {"items": [
     {"kind": "calls", "file": "lib/executors/chunkexecutor.go", "func": "chunkContainer.RemoveAll", "as": "sk_chunk_RemoveAll"},
     {"kind": "calls", "file": "lib/executors/chunkexecutor.go", "func": "chunkContainer.Execute", "as": "sk_chunk_Execute"},
     {"kind": "calls", "file": "lib/syncx/barrier.go", "func": "Barrier.Guard", "as": "sk_barrier_Guard"},
+    # documented defaults
+    {"kind": "const", "file": "lib/executors/bulkexecutor.go", "name": "defaultBulkTasks"},
+    {"kind": "const", "file": "lib/executors/chunkexecutor.go", "name": "defaultChunkSize"},
+    {"kind": "const", "file": "lib/executors/vars.go", "name": "defaultFlushInterval"},
     # the executors' concrete users
     {"kind": "const", "file": "lib/store/sqlx/bulkinserter.go", "name": "maxBulkRows"},
     {"kind": "calls", "file": "lib/store/sqlx/bulkinserter.go", "func": "dbInserter.AddTask", "as": "sk_db_AddTask"},
@@ -41,6 +45,11 @@ GEN_SPEC = {"items": [
     {"kind": "calls", "file": "lib/stat/metrics.go", "func": "Metrics.Add", "as": "sk_m_Add"},
     {"kind": "calls", "file": "lib/stat/metrics.go", "func": "Metrics.AddDrop", "as": "sk_m_AddDrop"},
     {"kind": "calls", "file": "lib/stat/metrics.go", "func": "NewMetrics", "as": "sk_m_New"},
+    {"kind": "calls", "file": "lib/stat/metrics.go", "func": "writeReport", "as": "sk_m_writeReport"},
+    {"kind": "calls", "file": "lib/stat/metrics.go", "func": "log", "as": "sk_m_log"},
+    {"kind": "calls", "file": "lib/stat/metrics.go", "func": "SetReportWriter", "as": "sk_m_SetReportWriter"},
+    {"kind": "calls", "file": "lib/executors/bulkexecutor.go", "func": "NewBulkExecutor", "as": "sk_NewBulkExecutor"},
+    {"kind": "calls", "file": "lib/executors/chunkexecutor.go", "func": "NewChunkExecutor", "as": "sk_NewChunkExecutor"},
 ]}
 PKGS = {"pe": ("./lib/executors", "^TestVerifDriver$"), "sqlx": ("./lib/store/sqlx", "^TestVerifDriverC16$"),
         "stat": ("./lib/stat", "^TestVerifDriverC16$")}
@@ -52,7 +61,12 @@ QUICK_N = 300
 THOROUGH_N = 3000
 SHARD = 60
 DRIVER_TIMEOUT = 600
-RULE = ("30 held-callback scripts per run (the execute callback of a below-threshold batch flushed by a tick / Flush / Wait is "
+RULE = ("6 independence scripts per run (executors with explicit WithBulkTasks / WithChunkBytes / interval options are created "
+        "and used first, then the observed Bulk / Chunk executor is created WITHOUT options: 1000+k tasks resp. 0.1-1 MiB "
+        "tasks; threshold batches must be full at the documented default, interval = default) and earlier executors / "
+        "explicit intervals (250 ms, 2 s) on 20% / 12% of the random scripts; stat.Metrics periods whose report is being "
+        "written (writer held inside the write lock) while a second Metrics instance flushes or SetReportWriter runs; "
+        "30 held-callback scripts per run (the execute callback of a below-threshold batch flushed by a tick / Flush / Wait is "
         "held while 1-5 more tasks are added, possibly past the threshold, or while a concurrent Wait is called; bulk and "
         "chunk); executors' users, every run: 6 sqlx.BulkInserter scripts (Insert n / Tick / Flush and FORCED overlaps: an Exec is "
         "held while a second 1000-row batch is cut off and queued and more rows arrive; recording SqlConn; 1000-4000 rows "
@@ -278,10 +292,15 @@ def _stat_case(rng):
                 threads.append([{"op": "tick"} for _ in range(rng.randint(1, 2))])
             ops.append({"op": "par", "threads": threads})
         y = rng.random()
-        if y < 0.45:
+        if y < 0.35:
             ops.append({"op": "tick"})
-        elif y < 0.8:
+        elif y < 0.6:
             ops.append({"op": "flush"})
+        elif y < 0.8:
+            # this period's report is being written while a second Metrics instance flushes / the writer is set
+            n2, d2 = rng.choice([(0, rng.randint(1, 3)), (rng.randint(1, 4), 0), (rng.randint(1, 4), rng.randint(1, 2)), (0, 0)])
+            ops.append({"op": "wgate", "via": rng.choice(["flush", "flush", "tick"]),
+                        "second": rng.choice(["flush", "flush", "flush", "setwriter"]), "n2": n2, "d2": d2})
         else:
             ops.append({"op": "overlap", "via": rng.choice(["tick", "flush"]), "n": rng.randint(1, 6)})
     ops.append({"op": "flush"})
@@ -340,6 +359,49 @@ def _hold_case(rng):
     return {"chunk": chunk, "max": mx, "ops": ops}
 
 
+def _before(rng, first=None):
+    """executors created (with explicit options) before the observed one"""
+    out = [first] if first else []
+    for _ in range(rng.randint(1, 3)):
+        out.append({"chunk": rng.random() < 0.4, "max": rng.choice([0, 3, 7, 64, 2000, 5000]),
+                    "interval_ms": rng.choice([0, 50, 250, 7000]), "adds": rng.randint(0, 4)})
+    return out
+
+
+def _indep_cases(rng, tier):
+    """the observed executor relies on the DEFAULTS (1000 tasks / 1 MiB / 1 s) after executors with explicit
+    options were created in the same process"""
+    cases = []
+    for _ in range(2 if tier != "thorough" else 4):
+        k = rng.randint(0, 40)
+        ops = [{"op": "addn", "id": 1, "n": 1000 + k}]
+        nxt = 1001 + k
+        if rng.random() < 0.5:
+            ops += [{"op": "tick"}, {"op": "tick"}]
+            k = 0
+        m = rng.choice([999, 1000, 1001]) - k
+        ops += [{"op": "addn", "id": nxt, "n": m}, {"op": "flush"}]
+        cases.append({"chunk": False, "max": 1000, "defaults": True, "big": True,
+                      "before": _before(rng, {"chunk": False, "max": rng.choice([5000, 17, 999]), "interval_ms": rng.choice([50, 3000]), "adds": 2}),
+                      "ops": ops})
+    for _ in range(4 if tier != "thorough" else 12):
+        ids = _Ids()
+        ops = []
+        for _ in range(rng.randint(3, 9)):
+            x = rng.random()
+            if x < 0.7:
+                ops.append({"op": "add", "id": ids.next(), "size": rng.choice([1, 100000, 300000, 400000, 524288, 600000, 1048575, 1048576, 1048577])})
+            elif x < 0.85:
+                ops.append({"op": "tick"})
+            else:
+                ops.append({"op": "flush"})
+        ops.append({"op": "wait"})
+        cases.append({"chunk": True, "max": 1048576, "defaults": True,
+                      "before": _before(rng, {"chunk": True, "max": rng.choice([10, 4096]), "interval_ms": rng.choice([50, 3000]), "adds": 2}),
+                      "ops": ops})
+    return cases
+
+
 def _users(rng, tier):
     k = 4 if tier == "thorough" else 1
     out = [_sqlx_case(rng, 0), _sqlx_case(rng, 1)] + [_sqlx_case(rng) for _ in range(SQLX_N * k - 2)]
@@ -348,7 +410,7 @@ def _users(rng, tier):
 
 
 def generate(rng, tier, n):
-    cases = _directed(rng) + _users(rng, tier) + [_hold_case(rng) for _ in range(HOLD_N * (4 if tier == "thorough" else 1))]
+    cases = _directed(rng) + _indep_cases(rng, tier) + _users(rng, tier) + [_hold_case(rng) for _ in range(HOLD_N * (4 if tier == "thorough" else 1))]
     if tier == "thorough":
         cases += _exhaustive()
     while len(cases) < n:
@@ -364,11 +426,16 @@ def generate(rng, tier, n):
                 ops.append(_par(rng, ids, chunk))
                 ops += _seq_ops(rng, ids, chunk, rng.randint(0, 3))
         ops.append({"op": "wait"})
-        cases.append({"chunk": chunk, "max": mx, "ops": ops})
+        case = {"chunk": chunk, "max": mx, "ops": ops}
+        if rng.random() < 0.2:
+            case["before"] = _before(rng)
+        if rng.random() < 0.12:
+            case["interval_ms"] = rng.choice([250, 2000])
+        cases.append(case)
     cases = cases[:max(n, 1)]
     # the BulkInserter cases are large (>= 1000 rows each): at most one per Coq shard
-    big = [c for c in cases if c.get("target") == "sqlx"]
-    rest = [c for c in cases if c.get("target") != "sqlx"]
+    big = [c for c in cases if c.get("target") == "sqlx" or c.get("big")]
+    rest = [c for c in cases if not (c.get("target") == "sqlx" or c.get("big"))]
     for k, c in enumerate(big):
         rest.insert(min(k * SHARD + 1, len(rest)), c)
     return rest
@@ -383,7 +450,7 @@ def search(rng, problems):
 
 def _is_seq(case):
     if case.get("target") == "stat":
-        return all(o["op"] != "par" for o in case["ops"])
+        return all(o["op"] not in ("par", "wgate") for o in case["ops"])
     return all(o["op"] in ("add", "tick", "advance", "flush", "wait", "racetick") for o in case["ops"])
 
 
@@ -400,11 +467,52 @@ def _walk(ops):
 
 
 TAIL = "%s false 0%%nat [] None"     # c_model c_stat c_drops c_reports c_big
+NOIVL = " [] (1000000000)%Z"                  # c_ivl c_ivl_exp
+
+
+def _ivl(case, obs):
+    """observed interval(s) and the configured one (default_interval when no option was given)"""
+    seen = [cZ(obs["interval"])] + ([cZ(obs["tick_d"])] if obs.get("tick_d") else []) if "interval" in obs else []
+    if case.get("defaults"):
+        exp = "default_interval"
+    else:
+        exp = cZ((case.get("interval_ms") or 1000) * 10 ** 6)
+    return " %s %s" % (clist(seen), exp)
+
+
+def _big_term(gmax, ops, obs):
+    for b in obs["batches"]:
+        b["ids"] = b["ids"] or []
+    cN = vlib.cN
+    adds = ["(%d%%positive, %s, %s)" % (a["id"], cN(a["call"]), cN(a["ret"])) for a in sorted(obs["adds"], key=lambda a: a["id"])]
+    calls = ["(%s, %s)" % (cN(k["call"]), cN(k["ret"])) for k in obs["calls"]]
+    ticks = ["(%s, %s, %s)" % (cN(t["seq"]), cbool(t["delivered"]), cN(t["done"])) for t in obs["ticks"]]
+    batches = ["(%s, %s, %s)" % (clist(["%d%%positive" % x for x in b["ids"]]) if all(x > 0 for x in b["ids"]) else "[]",
+                                  cN(b["start"]), cN(b["end"])) for b in obs["batches"]]
+    bad = bool(obs["hung"]) or any(x <= 0 for b in obs["batches"] for x in b["ids"])
+    big = "(Some (mkbig %s %s %s %s %s %s %s %s))" % (gmax, clist(ops), clist(adds), clist(calls), clist(ticks), clist(batches),
+                                                       cbool(bad), cnat(obs["pending"]))
+    return bad, big
+
+
+def _encode_pe_big(case, obs):
+    """default BulkExecutor (1000 tasks per batch): the large-batch checkers"""
+    ops = []
+    for o in case["ops"]:
+        if o["op"] == "addn":
+            ops.append("BIns %d%%positive %s" % (o["id"], cnat(o["n"])))
+        elif o["op"] == "add":
+            ops.append("BIns %d%%positive 1%%nat" % o["id"])
+        elif o["op"] == "tick":
+            ops.append("BTick")
+        elif o["op"] == "flush":
+            ops.append("BFlush")
+    bad, big = _big_term("default_bulk_tasks" if case.get("defaults") else cZ(case["max"]), ops, obs)
+    return "mkcase false %s [] false [] 0%%nat [] [] [] [] [] %s %s 2%%nat false 0%%nat [] %s" % (
+        cZ(case["max"]), cbool(bad), cnat(obs["pending"]), big) + _ivl(case, obs)
 
 
 def _encode_sqlx(case, obs):
-    for b in obs["batches"]:
-        b["ids"] = b["ids"] or []
     ops, nxt = [], 1
     for o in case["ops"]:
         if o["op"] == "insert":
@@ -418,17 +526,9 @@ def _encode_sqlx(case, obs):
             ops.append("BTick")
         elif o["op"] == "flush":
             ops.append("BFlush")
-    cN = vlib.cN
-    adds = ["(%d%%positive, %s, %s)" % (a["id"], cN(a["call"]), cN(a["ret"])) for a in sorted(obs["adds"], key=lambda a: a["id"])]
-    calls = ["(%s, %s)" % (cN(k["call"]), cN(k["ret"])) for k in obs["calls"]]
-    ticks = ["(%s, %s, %s)" % (cN(t["seq"]), cbool(t["delivered"]), cN(t["done"])) for t in obs["ticks"]]
-    batches = ["(%s, %s, %s)" % (clist(["%d%%positive" % x for x in b["ids"]]) if all(x > 0 for x in b["ids"]) else "[]",
-                                  cN(b["start"]), cN(b["end"])) for b in obs["batches"]]
-    bad = bool(obs["hung"]) or any(x <= 0 for b in obs["batches"] for x in b["ids"])
-    big = "(Some (mkbig %s %s %s %s %s %s %s))" % (clist(ops), clist(adds), clist(calls), clist(ticks), clist(batches),
-                                                    cbool(bad), cnat(obs["pending"]))
+    bad, big = _big_term("max_bulk_rows", ops, obs)
     return "mkcase false %s [] false [] 0%%nat [] [] [] [] [] %s %s 2%%nat false 0%%nat [] %s" % (
-        cZ(case["max"]), cbool(bad), cnat(obs["pending"]), big)
+        cZ(case["max"]), cbool(bad), cnat(obs["pending"]), big) + NOIVL
 
 
 def _encode_stat(case, obs):
@@ -438,6 +538,8 @@ def _encode_stat(case, obs):
     for o in _walk(case["ops"]):
         if o["op"] in ("add", "overlap"):
             nxt += o["n"]
+        if o["op"] == "wgate":
+            nxt += o["n2"]
     sizes = [cpair(cnat(i), cZ(i)) for i in range(1, nxt)]
     nxt = 1
     if seq:
@@ -467,7 +569,7 @@ def _encode_stat(case, obs):
     return "mkcase false %s %s %s %s %s %s %s %s %s [] %s %s %s true %s %s None" % (
         cZ(case["max"]), clist(sizes), cbool(seq), clist(ops), cnat(len(case["ops"])),
         clist(adds), clist(calls), clist(ticks), clist(batches), cbool(bool(obs["hung"])), cnat(obs["pending"]),
-        cnat(2 if seq else 1), cnat(obs.get("drops", 0)), clist(reps))
+        cnat(2 if seq else 1), cnat(obs.get("drops", 0)), clist(reps)) + NOIVL
 
 
 def encode(case, obs):
@@ -485,6 +587,8 @@ def encode(case, obs):
         return _encode_sqlx(case, obs)
     if tgt == "stat":
         return _encode_stat(case, obs)
+    if case.get("big"):
+        return _encode_pe_big(case, obs)
     seq = _is_seq(case)
     # scripts whose only concurrency are held execute callbacks have a fixed add order: the model replays them
     # (mode 2: batches in the order they were taken out = order of the callbacks' entry, and tick deliveries)
@@ -519,10 +623,13 @@ def encode(case, obs):
     ticks = ["mktick %s %s %s" % (cnat(t["seq"]), cbool(t["delivered"]), cnat(t["done"])) for t in obs["ticks"]]
     batches = ["mkbatch %s %s %s" % (clist([cnat(x) for x in b["ids"]]), cnat(b["start"]), cnat(b["end"])) for b in obs["batches"]]
     perop = ["mkop %s %s %s %s" % (cnat(p["nb"]), cbool(p["guarded"]), cnat(p["starts"]), cnat(p["stops"])) for p in obs["perop"]]
+    cmax = cZ(case["max"])
+    if case.get("defaults"):
+        cmax = "default_chunk_size" if case["chunk"] else "default_bulk_tasks"
     return "mkcase %s %s %s %s %s %s %s %s %s %s %s %s %s %s" % (
-        cbool(case["chunk"]), cZ(case["max"]), clist(sizes), cbool(seq), clist(ops), cnat(len(case["ops"])),
+        cbool(case["chunk"]), cmax, clist(sizes), cbool(seq), clist(ops), cnat(len(case["ops"])),
         clist(adds), clist(calls), clist(ticks), clist(batches), clist(perop), cbool(bool(obs["hung"])), cnat(obs["pending"]),
-        TAIL % cnat(mode))
+        TAIL % cnat(mode)) + _ivl(case, obs)
 
 
 def nontrivial(case, obs):
@@ -555,6 +662,12 @@ def bucket(case, obs):
                 out.append("obs:HUNG")
         return out
     out = ["chunk" if case["chunk"] else "bulk", "max=%d" % case["max"], "seq" if _is_seq(case) else "par"]
+    if case.get("defaults"):
+        out.append("cfg:defaults-after-%d-configured-executors" % len(case.get("before", [])))
+    elif case.get("before"):
+        out.append("cfg:explicit-after-earlier-executors")
+    if case.get("interval_ms"):
+        out.append("cfg:interval=%dms" % case["interval_ms"])
     for o in case["ops"]:
         out.append("op:" + o["op"])
         if o["op"] == "par":
